@@ -28,6 +28,9 @@ def malformed(rng):
         if pos == 'end':
             return base + u, 'unknown-char'
         return u, 'unknown-char'
+    if r < 0.36:
+        # blanks are characters like any other: a cell padded with a blank is malformed and must come back verbatim
+        return rng.choice([' 4D', ' ', '  ', ' 8r', ' =1', ' *clefG2', ' .']), 'blank-padded'
     if r < 0.45:
         return rng.choice(['4#c', '#4c', '8-d', '4nc', '2##ff', '16--E']), 'wrong-order'
     if r < 0.6:
@@ -36,7 +39,7 @@ def malformed(rng):
         return rng.choice(['*clef', '*k[', '*M', '*M4', '*MM', '*staff', '*k[f#', '*met(', '*xywh-1:', '*Trd', '*rscale:',
                            '*xywh', '*xywh-1', '*xywh-1:10,20,30', '*xywh-1:a,2,3,4', '*>[A,', '*tb']), 'truncated'
     return rng.choice(['4c|', '=1z', '4cc4', '*clefG2x', '8r4', '4c=', '*M4/4x', '=||z', '2e#|', '4c 4e|', '16gg*', '4d!',
-                       '2r$', '2rx', '2r:', '8rL', '4rT', 'rit.', '4c 4e $']), 'garbage-suffix'
+                       '2r$', '2rx', '2r:', '8rL', '4rT', 'rit.', '4c 4e $', '4d ', '4c 4e ', '=1 ']), 'garbage-suffix'
 
 
 def outcome(fn, text):
